@@ -258,7 +258,7 @@ class kMinPathErrorCycles(walkmodel.AbstractWalkModelDiGraph):
                 for constraint in self.subset_constraints:
                     # Convert to set if it's a list
                     # (only well-formed edges; malformed constraints are reported as ValueError by the base class)
-                    self.optimization_options["trusted_edges_for_safety"].update(edge for edge in constraint if isinstance(edge, tuple))
+                    self.optimization_options["trusted_edges_for_safety"].update(edge for edge in (constraint if isinstance(constraint, (list, tuple)) else []) if isinstance(edge, tuple))
 
         # Call the constructor of the parent class AbstractWalkModelDiGraph
         super().__init__(
